@@ -698,6 +698,36 @@ def azure_readexactly():
     )
 
 
+def gcs_readexactly():
+    """GetObjectStream.readexactly (the GCS stream behind read_range): with REM bytes of the response body still to come, it returns
+    exactly n bytes when REM >= n and signals UnexpectedEOFError only when the body ends first.  The aiohttp StreamReader is an
+    oracle with its documented contract: readexactly(n) gives n bytes or raises IncompleteReadError when the body is shorter;
+    read(n) gives SOME bytes, between 1 and min(n, REM) - whatever has arrived - and none only at the end of the body."""
+    REM = z3.Int('gcs_body_remaining')
+
+    def readexactly(eng, st, args, kw, node):
+        n = eng.num(args[0])
+        b = pyvc.fresh_value(('list', 'int'), 'exact')
+        st.env['n_reads'] = st.env['n_reads'] + 1
+        raise Fork(node, [('body-has-n-more-bytes', z3.And(REM >= n, b.len == n), 'value', b, None), ('body-ends-first', REM < n, 'raise', SExc('IncompleteReadError'), None)])
+
+    def read(eng, st, args, kw, node):
+        n = eng.num(args[0])
+        b = pyvc.fresh_value(('list', 'int'), 'some')
+        st.env['n_reads'] = st.env['n_reads'] + 1
+        st.assume(z3.And(b.len >= 0, b.len <= n, b.len <= REM, z3.Implies(z3.And(REM > 0, n > 0), b.len >= 1)))
+        return b
+
+    return Contract(
+        path=GCS, qualname='GetObjectStream.readexactly', types={'n': 'int'}, self_fields={'_closed': 'bool', '_content': 'U'},
+        requires=['gcs_body_remaining >= 0'], consts={'gcs_body_remaining': REM},
+        calls={'self._content.readexactly': readexactly, 'self._content.read': read}, ghost_init={'n_reads': '0'},
+        ensures=[('exactly-n-bytes', 'len(result) == n')],
+        raises={'UnexpectedEOFError': 'gcs_body_remaining < n', 'AssertionError': 'self._closed or n < 0 or self._content is None'},
+        canaries=[('never-returns', 'False')],
+    )
+
+
 def azure_open_from(has_len):
     def setup(eng, st):
         if not has_len:
@@ -995,7 +1025,7 @@ def native_witness(ctx):
 
 
 def build(ctx):
-    for c in [read_range(), read_from()] + open_from() + [router_open_from()] + empty_stream() + [gcs_open_from(True), gcs_open_from(False), s3_open_from(True), s3_open_from(False), truncated_init(), truncated_read(), truncated_seek(), readexactly_blocking(), read_blocking(), local_open_from(True), local_open_from(False), azure_open_from(True), azure_open_from(False), azure_readexactly(), authn_request(), session_request(None), session_request(False), base_session_get(), rate_limited_request(), gcs_get_object()] + [azure_read(v, m) for v in ((True, True), (True, False), (False, False)) for m in ('all', 'some')]:
+    for c in [read_range(), read_from()] + open_from() + [router_open_from()] + empty_stream() + [gcs_open_from(True), gcs_open_from(False), s3_open_from(True), s3_open_from(False), truncated_init(), truncated_read(), truncated_seek(), readexactly_blocking(), read_blocking(), local_open_from(True), local_open_from(False), azure_open_from(True), azure_open_from(False), azure_readexactly(), gcs_readexactly(), authn_request(), session_request(None), session_request(False), base_session_get(), rate_limited_request(), gcs_get_object()] + [azure_read(v, m) for v in ((True, True), (True, False), (False, False)) for m in ('all', 'some')]:
         e = pyvc.Engine(ctx, c)
         if c.qualname == 'TruncatedReadableBinaryIO.seek':
             e.replayer = seek_replayer  # a failed seek clause is replayed on the real class for the whence it is about
